@@ -148,7 +148,7 @@ DIMENSIONS = {
     "Interval<instance>": (V, "instance attributes {_start, _end}: objects are copied by copy / deepcopy / pickle and queried / mutated afterwards; "
                               "the original is re-checked at the end of the history"),
     # --- AngleInterval
-    "AngleInterval._TOLERANCE": (O, "class constant: read and handed to the model as eps; angles within 1e-9 of an end point are ambiguous"),
+    "AngleInterval<_TOLERANCE>": (O, "private class constant: read and handed to the model as eps; angles within 1e-9 of an end point are ambiguous"),
     "AngleInterval.__init__(start,end)": (V, "lengths 0, tiny, around pi, up to 2pi-1e-6, >= 2pi (rejected), start > end (rejected); positions across +-pi, "
                                              "+-2pi, bounds exactly at -2pi -pi 0 pi 2pi, int arguments, numpy float64/int64/float32, up to 300 turns away, at "
                                              "and next to whole multiples of 2pi"),
@@ -183,8 +183,8 @@ def real_dimensions():
     found = set()
     for c in (Interval, AngleInterval):
         for n, o in vars(c).items():
-            if n in _IGNORED:
-                continue
+            if n in _IGNORED or (n.startswith("_") and not n.startswith("__")):
+                continue                                     # private helpers / constants are not entry points (instance state is checked below)
             if isinstance(o, property):
                 found.add(f"{c.__name__}.{n}[{'setter' if o.fset else 'ro'}]")
             elif inspect.isfunction(o) or isinstance(o, (classmethod, staticmethod)):
@@ -194,7 +194,11 @@ def real_dimensions():
                 found.add(f"{c.__name__}.{n}")
     problems = []
     for c in (Interval, AngleInterval):
-        keys = set(vars(c(0, 1)).keys())
+        o = c(0, 1)
+        for what in NOISE:                                   # lazily created attributes (caches) show up after the read-only calls
+            _noise(o, what)
+        call(o.contains, 0.5), call(o.contains, c(0, 0.5)), call(lambda: (o.length, o + 1, o.overlaps(o), o.intersection(o)))
+        keys = set(vars(o).keys())
         if keys != {"_start", "_end"}:
             problems.append(f"{c.__name__} instances now carry attributes {sorted(keys)} (table: _start, _end)")
     if AngleInterval.__mro__[1:] != (Interval, object):
